@@ -341,7 +341,12 @@ func c14Run(args [][]string) []string {
 		}
 	}
 	for _, t := range sched {
-		if t >= 0 && t < n {
+		if t < 0 {
+			// a pause of -t x 100 ms: the current holder is slow (nothing may move meanwhile)
+			time.Sleep(time.Duration(-t) * 100 * time.Millisecond)
+			continue
+		}
+		if t < n {
 			release(t)
 		}
 	}
